@@ -166,6 +166,99 @@ func runC01(t *testing.T, s *kit.Session, c c01Case) *kit.Failure {
 	return nil
 }
 
+
+// ---- bounded-exhaustive enumeration of short logs -------------------------------
+
+// c01Policies are the two fixed policy states of the enumeration: P0 protects
+// main with {key0, key1} threshold 1; P1 protects it with {key1, key2}
+// threshold 2. Key 0 is de-authorised by the change, key 2 newly authorised,
+// key 1 stays. refs/heads/scratch is unprotected.
+func c01Policies() []kit.PolicySpec {
+	mk := func(devs []int, thr int) kit.PolicySpec {
+		root := keyPrin(wgRootKey)
+		f := &kit.FileSpec{Signers: []int{wgRootKey}}
+		for _, d := range devs {
+			f.Principals = append(f.Principals, keyPrin(d))
+		}
+		f.Rules = []kit.RuleSpec{{Name: "protect-main", Patterns: []string{"git:refs/heads/main"}, Principals: indices(len(devs)), Threshold: thr}}
+		return kit.PolicySpec{RootPrincipals: []kit.PrincipalSpec{root}, RootThreshold: 1, TargetsKeys: []kit.PrincipalSpec{root}, TargetsThreshold: 1, RootSigners: []int{wgRootKey}, Targets: f}
+	}
+	return []kit.PolicySpec{mk([]int{0, 1}, 1), mk([]int{1, 2}, 2)}
+}
+
+const c01Alphabet = 19
+
+// c01Symbol appends the event(s) of alphabet symbol sym to the world.
+//
+//	0..9   push to main: signer {key0, key1, key2, unknown key, none} x tree {0, 1}
+//	10..12 approval for (main, current state, tree): by key1 for tree 0, by key2 for tree 0, by key1 for tree 1
+//	13..15 annotation: skip the latest push to main, skip the first push to main, non-skip note on the latest push
+//	16     policy change P0 -> P1 (once; a second occurrence re-applies P1's successor-free state and is dropped)
+//	17     entry for an unrelated reference
+//	18     unsigned push to the unprotected refs/heads/scratch
+func c01Symbol(w *kit.World, sym int, pol *int) bool {
+	var pushes []int
+	for i, e := range w.Events {
+		if e.Kind == "push" && e.Ref == "refs/heads/main" {
+			pushes = append(pushes, i)
+		}
+	}
+	switch {
+	case sym < 10:
+		signer := []int{0, 1, 2, wgUnknownKey, -1}[sym/2]
+		w.Events = append(w.Events, kit.Event{Kind: "push", Ref: "refs/heads/main", Tree: sym % 2, Signer: signer})
+	case sym < 13:
+		signer, tree := []int{1, 2, 1}[sym-10], []int{0, 0, 1}[sym-10]
+		c := kit.Change{Ref: "refs/heads/main", From: -2, To: tree}
+		w.Events = append(w.Events, kit.Event{Kind: "approve", Signer: -1, Items: []kit.AttItem{{Kind: "auth", Stmt: c, Path: c, Signers: []int{signer}}}})
+	case sym < 16:
+		if len(pushes) == 0 {
+			return false
+		}
+		t := pushes[len(pushes)-1]
+		if sym == 14 {
+			t = pushes[0]
+		}
+		w.Events = append(w.Events, kit.Event{Kind: "annotate", Targets: []int{t}, Skip: sym != 15, Signer: -1})
+	case sym == 16:
+		if *pol != 0 {
+			return false
+		}
+		*pol = 1
+		w.Events = append(w.Events, kit.Event{Kind: "policy", Policy: 1, Signer: -1})
+	case sym == 17:
+		w.Events = append(w.Events, kit.Event{Kind: "other", Ref: "refs/heads/unrelated", Tree: 2, Signer: -1})
+	default:
+		w.Events = append(w.Events, kit.Event{Kind: "push", Ref: "refs/heads/scratch", Tree: 3, Signer: -1})
+	}
+	return true
+}
+
+// c01EnumCase decodes index i into a log of exactly L symbols (after the
+// initial policy). Words containing a symbol that is not enabled at its
+// position (annotation without a push, second policy change) are reported as
+// skipped - the same log is reached by a shorter word.
+func c01EnumCase(L, i int) (c c01Case, ok, skip bool) {
+	total := 1
+	for k := 0; k < L; k++ {
+		total *= c01Alphabet
+	}
+	if i >= total {
+		return c, false, false
+	}
+	w := kit.World{Policies: c01Policies()}
+	w.Events = append(w.Events, kit.Event{Kind: "policy", Policy: 0, Signer: -1})
+	pol := 0
+	for k := 0; k < L; k++ {
+		if !c01Symbol(&w, i%c01Alphabet, &pol) {
+			return c, true, true
+		}
+		i /= c01Alphabet
+	}
+	w.Normalise()
+	return c01Case{World: w, Gen: []string{"enumerated"}}, true, false
+}
+
 func TestC01(t *testing.T) {
 	s := kit.Open(t, "C01")
 	run := func(c c01Case) *kit.Failure { return runC01(t, s, c) }
@@ -173,13 +266,42 @@ func TestC01(t *testing.T) {
 		kit.DoReplay(s, t, rf, run)
 		return
 	}
-	s.SetRule("rapid, class-first construction {authorised-only, violation, recovery, mixed}: worlds of 1-4 validly signed policy states over developer keys 0..5 (rules for refs/heads/main and release with thresholds 1..3, 0-2 delegation levels, optional terminating flags) and logs of 1-24 events {push signed by an authorised / other / de-authorised / unknown / no key, with approvals for exactly this change when the threshold needs them; approval for this or another change; skip/non-skip annotation over 1-3 earlier pushes; policy change; entry for an unrelated ref; propagation entry}. Oracle: reference model of policy-in-force + delegation walk + credit + recovery, compared with VerifyRefFull (verdict and exact tip), VerifyRef and VerifyRefFromEntry(first entry) for three refs. Non-trivial: an entry on a protected ref plus (a violating signer, an approval, an annotation or a policy change)")
+	s.SetRule("rapid, class-first construction {authorised-only, violation, recovery, mixed}: worlds of 1-4 validly signed policy states over developer keys 0..5 (rules for refs/heads/main and release with thresholds 1..3, 0-2 delegation levels, optional terminating flags) and logs of 1-24 events {push signed by an authorised / other / de-authorised / unknown / no key, with approvals for exactly this change when the threshold needs them; approval for this or another change; skip/non-skip annotation over 1-3 earlier pushes; policy change; entry for an unrelated ref; propagation entry}. Plus a bounded-exhaustive enumeration of short logs (see enumeration_bound). Oracle: reference model of policy-in-force + delegation walk + credit + recovery, compared with VerifyRefFull (verdict and exact tip), VerifyRef and VerifyRefFromEntry(first entry) for three refs. Non-trivial: an entry on a protected ref plus (a violating signer, an approval, an annotation or a policy change)")
 	opt := wgOptions{Delegation: true, PropProtected: true}
 	kit.Campaign(s, t, "worlds", "world", s.Budget(12_000, 400_000), func(rt *rapid.T) c01Case {
 		cl := map[string]bool{}
 		w := genWorld(rt, opt, cl)
 		return c01Case{World: w, Gen: sortedKeys(cl)}
 	}, run)
+	// bounded-exhaustive: every log of <= L symbols over the 19-symbol alphabet
+	maxL := 3
+	if s.Thorough() {
+		maxL = 4
+	}
+	exh := true
+	for L := 1; L <= maxL && exh; L++ {
+		L := L
+		exh = kit.Enumerate(s, t, fmt.Sprintf("enum-L%d", L), "world", func(i int) (c01Case, bool) {
+			for {
+				c, ok, skip := c01EnumCase(L, i)
+				if !ok {
+					return c, false
+				}
+				if !skip {
+					return c, true
+				}
+				// a disabled word: hand back an empty marker that run() ignores
+				return c01Case{Gen: []string{"disabled-word"}}, true
+			}
+		}, func(c c01Case) *kit.Failure {
+			if len(c.World.Events) == 0 {
+				return nil
+			}
+			return run(c)
+		})
+	}
+	s.SetExhaustive(exh)
+	s.SetExtra("enumeration_bound", fmt.Sprintf("every log of 1..%d events after the initial policy over a 19-symbol alphabet: push to protected main by {key0, key1, key2, unknown key, nobody} x tree {0,1}; authorization for (main, current state, tree) by key1/tree0, key2/tree0, key1/tree1; skip annotation on the latest / the first push, plain annotation on the latest push; policy change P0({key0,key1} threshold 1) -> P1({key1,key2} threshold 2); entry for an unrelated ref; unsigned push to unprotected scratch", maxL))
 	// probe / extension: propagation entries on protected references
 	optP := wgOptions{Delegation: false, PropProtected: true, MaxEvents: 10}
 	kit.Campaign(s, t, "propagation", "world", s.Budget(2_000, 40_000), func(rt *rapid.T) c01Case {
